@@ -5,8 +5,10 @@ package app
 // Machine-checked contracts for /verif (gowp). Comment-only file: it adds no code.
 // Frames of read-only accessors of the scope / IO context interfaces.
 
+// (an IO context always has a scope: assumed of every implementation, gio.NewIOContext takes one)
 //@ iface github.com/goatcms/goatcore/app.IOContext.Scope(self) (scp)
 //@   modifies $none
+//@   ensures [C14] scp != nil
 //@ iface github.com/goatcms/goatcore/app.IOContext.IO(self) (io)
 //@   modifies $none
 //@ iface github.com/goatcms/goatcore/app.Scope.Err(self) (err)
